@@ -39,7 +39,7 @@ impl CountIter {
             len,
             pos: 0,
             calls: Arc::new(AtomicUsize::new(0)),
-            budget: 5_000,
+            budget: 60_000,
             world: world.cloned(),
             edge: None,
             clones: Arc::new(AtomicUsize::new(0)),
@@ -92,6 +92,13 @@ impl Iterator for CountIter {
         }
         r
     }
+    /// exact, like arrays, ranges and Vecs (a source must not use it to run ahead of its sink)
+    fn size_hint(&self) -> (usize, Option<usize>) {
+        match self.len {
+            Some(n) => (n.saturating_sub(self.pos), Some(n.saturating_sub(self.pos))),
+            None => (usize::MAX, None),
+        }
+    }
 }
 
 // ---------------------------------------------------------------------------------------------
@@ -114,6 +121,8 @@ pub enum Stage {
     Prepend(Vec<Pipe>),
     /// map(|x| from_iter(c*x .. c*x + (x mod lm)) |> inner stages) then flatten
     FlatMap { c: i64, lm: i64, inner: Vec<Stage> },
+    /// |s| map(|_| shared.clone()) then flatten, where `shared` is one source value built once
+    FlatMapShared(Box<Pipe>),
 }
 
 #[derive(Clone, Debug)]
@@ -127,6 +136,9 @@ pub struct IterSpec {
 pub enum Src0 {
     Iter(IterSpec),
     Concat(Vec<Pipe>),
+    /// { let s = Arc::new(pipe); concat!(s.clone(), .., s.clone()) }: one source value subscribed k
+    /// times, each time from inside the completion of the previous subscription
+    Repeat(Box<Pipe>, usize),
 }
 
 #[derive(Clone, Debug)]
@@ -153,6 +165,7 @@ impl Stage {
             Stage::Skip(n) => format!("skip({})", n),
             Stage::Append(v) => format!("concat!(_,{})", v.iter().map(|p| p.show()).collect::<Vec<_>>().join(",")),
             Stage::Prepend(v) => format!("concat!({},_)", v.iter().map(|p| p.show()).collect::<Vec<_>>().join(",")),
+            Stage::FlatMapShared(p) => format!("map(_ -> shared[{}])|flatten", p.show()),
             Stage::FlatMap { c, lm, inner } => format!(
                 "map(x->from_iter({}x..+x%{}){})|flatten",
                 c,
@@ -171,6 +184,7 @@ impl Pipe {
                 None => format!("from_iter[{}..]", i.start),
             },
             Src0::Concat(v) => format!("concat!({})", v.iter().map(|p| p.show()).collect::<Vec<_>>().join(",")),
+            Src0::Repeat(p, k) => format!("(let s = {}; concat!(s x{}))", p.show(), k),
         };
         format!("{}{}", s, self.stages.iter().map(|s| format!("|{}", s.show())).collect::<String>())
     }
@@ -210,6 +224,11 @@ pub fn build_pipe(p: &Pipe, ctx: &Ctx<'_>) -> Src<V> {
         },
         Src0::Concat(v) => {
             let srcs: Vec<Src<V>> = v.iter().map(|q| build_pipe(q, ctx)).collect();
+            Arc::new(callbag::concat(srcs.into_boxed_slice()))
+        },
+        Src0::Repeat(q, k) => {
+            let one = build_pipe(q, ctx);
+            let srcs: Vec<Src<V>> = (0..*k).map(|_| Arc::clone(&one)).collect();
             Arc::new(callbag::concat(srcs.into_boxed_slice()))
         },
     };
@@ -267,6 +286,18 @@ fn apply_stage(st: &Stage, s: Src<V>, ctx: &Ctx<'_>) -> Src<V> {
             srcs.push(s);
             Arc::new(callbag::concat(srcs.into_boxed_slice()))
         },
+        Stage::FlatMapShared(p) => {
+            let shared = build_pipe(p, ctx);
+            let counters = Arc::clone(ctx.counters);
+            let mapped: Arc<callbag::Source<Src<V>>> = Arc::new(callbag::pipe!(
+                s,
+                callbag::map(move |_x: i64| -> Src<V> {
+                    counters.closures.fetch_add(1, Ordering::SeqCst);
+                    Arc::clone(&shared)
+                })
+            ));
+            Arc::new(callbag::flatten(mapped))
+        },
         Stage::FlatMap { c, lm, inner } => {
             let (c, lm) = (*c, *lm);
             let inner = inner.clone();
@@ -304,6 +335,13 @@ pub fn build_ref(p: &Pipe, counters: &Arc<Counters>) -> Box<dyn Iterator<Item = 
         Src0::Concat(v) => {
             let mut acc: Box<dyn Iterator<Item = i64>> = Box::new(std::iter::empty());
             for q in v {
+                acc = Box::new(acc.chain(build_ref(q, counters)));
+            }
+            acc
+        },
+        Src0::Repeat(q, k) => {
+            let mut acc: Box<dyn Iterator<Item = i64>> = Box::new(std::iter::empty());
+            for _ in 0..*k {
                 acc = Box::new(acc.chain(build_ref(q, counters)));
             }
             acc
@@ -356,6 +394,14 @@ fn ref_stage(st: &Stage, it: Box<dyn Iterator<Item = i64>>, counters: &Arc<Count
             }
             Box::new(acc.chain(it))
         },
+        Stage::FlatMapShared(p) => {
+            let p = p.clone();
+            let counters = Arc::clone(counters);
+            Box::new(it.flat_map(move |_x| {
+                counters.closures.fetch_add(1, Ordering::SeqCst);
+                build_ref(&p, &counters)
+            }))
+        },
         Stage::FlatMap { c, lm, inner } => {
             let (c, lm) = (*c, *lm);
             let inner = inner.clone();
@@ -389,7 +435,7 @@ struct Gen<'a> {
 fn gen_stages(g: &mut Gen<'_>, n: usize, mut finite: bool, depth: usize) -> (Vec<Stage>, bool) {
     let mut v = vec![];
     for _ in 0..n {
-        let pick = g.c.choose(if depth > 0 { 9 } else { 7 });
+        let pick = g.c.choose(if depth > 0 { 10 } else { 7 });
         let st = match pick {
             0 => Stage::Map([1, 2, 3, -1][g.c.choose(4)], g.c.choose(5) as i64),
             1 => {
@@ -413,6 +459,7 @@ fn gen_stages(g: &mut Gen<'_>, n: usize, mut finite: bool, depth: usize) -> (Vec
                     Stage::Prepend(others)
                 }
             },
+            9 => Stage::FlatMapShared(Box::new(gen_pipe(g, 0, true))),
             _ => {
                 let ni = g.c.choose(3);
                 // inner stages must keep inner streams finite: they are (bounded ranges)
@@ -448,6 +495,8 @@ fn gen_pipe(g: &mut Gen<'_>, depth: usize, must_be_finite: bool) -> Pipe {
     let src = if depth > 0 && g.c.chance(1, 5) {
         let k = g.c.choose(4);
         Src0::Concat((0..k).map(|_| gen_pipe(g, depth - 1, true)).collect())
+    } else if depth > 0 && g.c.chance(1, 6) {
+        Src0::Repeat(Box::new(gen_pipe(g, depth - 1, true)), 2 + g.c.choose(2))
     } else {
         let leaf = g.next_leaf;
         g.next_leaf += 1;
@@ -502,10 +551,14 @@ pub fn n_leaves(p: &Pipe) -> usize {
         match &p.src {
             Src0::Iter(i) => *m = (*m).max(i.leaf + 1),
             Src0::Concat(v) => v.iter().for_each(|q| walk(q, m)),
+            Src0::Repeat(q, _) => walk(q, m),
         }
         for s in &p.stages {
             if let Stage::Append(v) | Stage::Prepend(v) = s {
                 v.iter().for_each(|q| walk(q, m));
+            }
+            if let Stage::FlatMapShared(q) = s {
+                walk(q, m);
             }
         }
     }
